@@ -1082,6 +1082,10 @@ func (s *TreeShapeListener) EnterHttp_path_var_with_type(ctx *parser.Http_path_v
 	case ctx.Reference() != nil:
 		s.fieldname = append(s.fieldname, var_name)
 		type1 = &sysl.Type{}
+		if s.typemap == nil {
+			// a preceding type or parameter list in the same application leaves no type map behind
+			s.typemap = map[string]*sysl.Type{}
+		}
 		s.typemap[s.fieldname[len(s.fieldname)-1]] = type1
 	default:
 		ref_path := []string{ctx.Name_str().GetText()}
